@@ -121,6 +121,29 @@ func (p *c09PubSpy) UnpublishConnection(ctx context.Context, o resource.Connecti
 	return p.inner.UnpublishConnection(ctx, o, c)
 }
 
+// c09DerivedCfg restates connectionDetailType + the name defaulting of
+// ExtractConfigsFromComposedTemplate for the monitors.
+func c09DerivedCfg(c c09Extract) (tp, name string) {
+	tp = c.Type
+	if tp == "" {
+		switch {
+		case c.HasV:
+			tp = "FromValue"
+		case c.Key != "":
+			tp = "FromConnectionSecretKey"
+		case c.Path != "":
+			tp = "FromFieldPath"
+		default:
+			tp = "FromConnectionSecretKey"
+		}
+	}
+	name = c.Name
+	if name == "" && tp == "FromConnectionSecretKey" {
+		name = c.Key
+	}
+	return tp, name
+}
+
 func c09ConnDetails(cfgs []c09Extract) []v1.ConnectionDetail {
 	out := []v1.ConnectionDetail{}
 	for _, c := range cfgs {
@@ -322,6 +345,60 @@ func c09FlowRun(s c09FlowScn) (c09FlowObs, []Mon) {
 			}
 		}
 		// --- direct monitors (real secrets only) ---
+		// per-resource provenance of what the composer hands to the publisher: a value that is
+		// stored in some composed resource's connection secret may be published under key k only if
+		// a template of THIS XR (resource not controlled by someone else) has a
+		// FromConnectionSecretKey detail named k whose key holds that value in the secret that
+		// template's OWN resource references (namespace AND name) - not in a secret of the same
+		// name that another composed resource references in another namespace
+		if spy.called {
+			cand := map[string]bool{}
+			xrRefs := map[c09Key]bool{}
+			for _, ox := range s.XRs {
+				if ox.Ref != nil {
+					xrRefs[*ox.Ref] = true
+				}
+			}
+			for _, ox := range s.XRs {
+				for _, t := range ox.Tmpls {
+					// (a secret that is also some XR's own holds published values of any origin: not judged here)
+					if t.Sec != nil && !xrRefs[*t.Sec] {
+						if sec, ok := before[*t.Sec]; ok {
+							for _, kv := range sec.Data {
+								cand[kv.V] = true
+							}
+						}
+					}
+				}
+			}
+			for k, v := range spy.details {
+				if !cand[string(v)] {
+					continue
+				}
+				sourced := false
+				for _, t := range x.Tmpls {
+					if t.Ctrl == "other" || t.Sec == nil {
+						continue
+					}
+					sec, ok := before[*t.Sec]
+					if !ok {
+						continue
+					}
+					data := c09Map(sec.Data)
+					for _, c := range t.Cfgs {
+						tp, name := c09DerivedCfg(c)
+						if tp == "FromConnectionSecretKey" && name == k && c.Key != "" {
+							if sv, has := data[c.Key]; has && string(sv) == string(v) {
+								sourced = true
+							}
+						}
+					}
+				}
+				if !sourced {
+					mon("C09:extracted-value-unsourced", fmt.Sprintf("the composer produced %q=%q, a value of a connection secret that no template of this XR designates for that name through its own resource's secret reference (namespace and name)", k, v))
+				}
+			}
+		}
 		if x.Ref == nil {
 			if cl.allWrites > 0 {
 				mon("C09:published-unasked", "a secret was written although the XR has no writeConnectionSecretToRef")
@@ -446,8 +523,20 @@ func c09FlowGen(r *Rng) c09FlowScn {
 				if tm.Ctrl != "other" && i > 0 && r.Chance(1, 10) && s.XRs[0].Ref != nil {
 					k = *s.XRs[0].Ref // a resource whose connection secret is another XR's
 				}
+				present := 9
+				if tm.Ctrl != "other" && t > 0 && r.Chance(1, 3) {
+					// a later resource of the SAME XR whose secret has the name an earlier one uses, in
+					// another namespace (different data; absent 1 in 3)
+					k = c09Key{fmt.Sprintf("sec-%db", i), Pick(r, []string{"creds", "creds-2"})}
+					for _, e := range x.Tmpls {
+						if e.Sec != nil && e.Ctrl != "other" {
+							k.Name = e.Sec.Name
+						}
+					}
+					present = 6
+				}
 				tm.Sec = &k
-				if r.Chance(9, 10) {
+				if r.Chance(present, 10) {
 					// providers mostly write connection-typed secrets; the fetcher reads whatever is referenced
 					sec := c09ASecret{NS: k.NS, Name: k.Name, Type: Pick(r, []string{c09ConnType, c09ConnType, c09ConnType, "Opaque", ""}), Ctrl: "m:" + tm.CD + ":1", Plain: []string{}, Data: []c09KV{}}
 					for _, dk := range keys {
